@@ -247,6 +247,12 @@ package codec
 //@   ensures [C06] (n > 0 && i0 + n > len(src)) ==> len(result) < n
 //@   safety [C05]
 //
+// Stack depth (C05: no stack exhaustion): the recursion skipField -> skipContainer -> skipFieldList / skipFieldMap /
+// SkipToStructEnd -> skipField passes, on every cycle, the one call of skipContainer in skipField, where the nesting
+// counter is one more than at skipField's entry and at most maxNestDepth; the other calls of the cycle are made with
+// the counter unchanged (site assertions below). So no more than maxNestDepth+1 activations of skipField are ever
+// on the stack, whatever the input.
+//
 //@ func (*Reader).skipField
 //@   witness src = b.buf.src
 //@   witness i = b.buf.i
@@ -258,6 +264,9 @@ package codec
 //@   ensures b.depth == old(b.depth)
 //@   ensures [C04,C06] payloadEnd(src, ty, i0, d0) >= 0 ==> (err == nil && b.buf.i == payloadEnd(src, ty, i0, d0))
 //@   ensures [C04,C05,C06] b.buf.i >= i0
+//@   ensures [C06] (ty == StructEnd || ty == ZeroTag) ==> (err == nil && b.buf.i == i0)
+//@   site skipContainer#0 assert [C05] b.depth == d0 + 1 && b.depth <= maxNestDepth
+//@   sites skipContainer = 1
 //@   decreases len(b.buf.src) - b.buf.i, 3
 //@   safety [C05]
 //
@@ -270,6 +279,8 @@ package codec
 //@   let d0 = b.depth
 //@   let pe = payloadEnd(b.buf.src, LIST, b.buf.i, b.depth - 1)
 //@   modifies b.buf.i, b.depth
+//@   site ).skipField#0 assert [C05] b.depth == d0
+//@   sites ).skipField = 1
 //@   ensures b.depth == old(b.depth)
 //@   ensures [C04,C06] payloadEnd(src, LIST, i0, d0 - 1) >= 0 ==> (err == nil && b.buf.i == payloadEnd(src, LIST, i0, d0 - 1))
 //@   ensures [C04,C05,C06] b.buf.i >= i0
@@ -288,6 +299,8 @@ package codec
 //@   let d0 = b.depth
 //@   let pe = payloadEnd(b.buf.src, MAP, b.buf.i, b.depth - 1)
 //@   modifies b.buf.i, b.depth
+//@   site ).skipField#0 assert [C05] b.depth == d0
+//@   sites ).skipField = 1
 //@   ensures b.depth == old(b.depth)
 //@   ensures [C04,C06] payloadEnd(src, MAP, i0, d0 - 1) >= 0 ==> (err == nil && b.buf.i == payloadEnd(src, MAP, i0, d0 - 1))
 //@   ensures [C04,C05,C06] b.buf.i >= i0
@@ -319,9 +332,12 @@ package codec
 //@   let i0 = b.buf.i
 //@   let d0 = b.depth
 //@   modifies b.buf.i, b.depth
+//@   site ).skipField#0 assert [C05] b.depth == d0
+//@   sites ).skipField = 1
 //@   ensures b.depth == old(b.depth)
 //@   ensures [C04,C06] structEnd(src, i0, d0) >= 0 ==> (err == nil && b.buf.i == structEnd(src, i0, d0))
 //@   ensures [C04,C05,C06] b.buf.i >= i0
+//@   ensures [C06] err == nil ==> ((b.buf.i - 1 >= i0 && hdOk(src, b.buf.i - 1) && hdTy(src, b.buf.i - 1) == StructEnd && hdNext(src, b.buf.i - 1) == b.buf.i) || (b.buf.i - 2 >= i0 && hdOk(src, b.buf.i - 2) && hdTy(src, b.buf.i - 2) == StructEnd && hdNext(src, b.buf.i - 2) == b.buf.i))
 //@   loop 0 invariant validR(b) && b.buf.i >= i0 && b.depth == old(b.depth)
 //@   loop 0 invariant [C04,C06] structEnd(src, i0, d0) >= 0 ==> structEnd(src, b.buf.i, d0) == structEnd(src, i0, d0)
 //@   loop 0 decreases len(src) - b.buf.i
